@@ -894,6 +894,17 @@ def opMonotonicPattern : Op K := fun n _ =>
 
 
 
+/-- ints: ny sym ; floats: local_stiff_transformed[ne,12,12] → k_rows, k_cols, k_data (each of the same length) -/
+def opFEMPattern : Op K := fun n a =>
+  let ny := n[0]!; let sym := flag n 1
+  let kloc := fun e r c => at_ a (144*e + 12*r + c)
+  let l := FEM.cooEntries ny (FEM.clampIndex ny sym) kloc
+  let o := l.foldl (fun (o : Array K) t => o.push ((t.1 : Nat) : K)) #[]
+  let o := l.foldl (fun (o : Array K) t => o.push ((t.2.1 : Nat) : K)) o
+  l.foldl (fun (o : Array K) t => o.push t.2.2) o
+
+
+
 def ops : List (String × Op K) := [
   ("ComputeNodes", opComputeNodes),
   ("LoadTransfer", opLoadTransfer),
@@ -981,7 +992,8 @@ def ops : List (String × Op K) := [
   ("UnifyComp", opUnifyComp),
   ("MultiJoin", opMultiJoin),
   ("FEMResidual", opFEMResidual),
-  ("MonotonicPattern", opMonotonicPattern)
+  ("MonotonicPattern", opMonotonicPattern),
+  ("FEMPattern", opFEMPattern)
 ]
 
 end OAS.Driver
